@@ -76,7 +76,8 @@ def rule_w(ctx, F):
     # summariser: zero first, then accumulate once per child inside the loop over child_count
     fn = ctx.need_fn(F, "ts_subtree_summarize_children", "W2")
     if fn:
-        loop_head = [pt for pt, e in fn.points() if e.get("k") == "decl" and e["name"] == "child"]
+        bind(fn, "child", "children[i]")
+        loop_head = [pt for pt, e in fn.points() if e.get("k") == "decl" and e["name"] == fn.cur("child")]
         for f in ("visible_child_count", "named_child_count", "visible_descendant_count", "error_cost"):
             z = [pt for pt, n in find(fn, "self.ptr->%s = 0" % f)]
             ctx.before("W2", "summarize:zeroed-first:%s" % f, fn, loop_head, z, "`%s` is zeroed before the loop over the children" % f)
@@ -121,7 +122,8 @@ def rule_p1(ctx, F):
 def rule_p2(ctx, F):
     fn = ctx.need_fn(F, "ts_subtree_summarize_children", "P2")
     if fn:
-        head = [pt for pt, e in fn.points() if e.get("k") == "decl" and e["name"] == "child"]
+        bind(fn, "child", "children[i]")
+        head = [pt for pt, e in fn.points() if e.get("k") == "decl" and e["name"] == fn.cur("child")]
         adds = [pt for pt, n in find(fn, "self.ptr->error_cost += @has(ts_subtree_error_cost(child))")]
         ctx.floor("child error cost additions", len(adds), 2)
         nxt = [pt for pt, n in find(fn, "self.ptr->dynamic_precedence += _")]
